@@ -56,7 +56,12 @@ func VerifRun_C03b() {
 // c: strings and comments — `a=` followed by N bytes over the string/comment alphabet
 func VerifRun_C03c() {
 	body := verifBytesIn("str", verifParam("N"), "\"'\\nzx1a[]=-\n\r")
-	src := append([]byte("a="), body...)
+	// in expression position (strings) or after a complete statement (comments between tokens)
+	prefix := "a="
+	if verifBool("afterstat") {
+		prefix = "a=1 "
+	}
+	src := append([]byte(prefix), body...)
 	c03compare(src)
 }
 
